@@ -841,6 +841,27 @@ fn mode_roundtrip(ctx: &mut Ctx, args: &Args, rng: &mut Rng, shard: (u64, u64)) 
         }
         e += shard.1;
     }
+    // floats next to an exact tie that fits 19 digits (G5): the tie string is the shortest rendering of its even neighbour,
+    // so these are the floats whose printed form is itself a rounding boundary
+    for n in 0..(if thorough { 20_000 } else { 1_500 }) {
+        if n % 64 == 0 && ctx.rep.out_of_time() {
+            break;
+        }
+        let fmt = if n % 3 == 0 { F32 } else { F64 };
+        let tie = gen::g5(rng, fmt);
+        let even = oracle::round(&tie.dec(), fmt);
+        if even >= fmt.inf_bits() {
+            continue;
+        }
+        for bits in [even, even.saturating_sub(1), (even + 1).min(fmt.inf_bits() - 1)] {
+            for which in 0..3u64 {
+                for lay in 0..4u64 {
+                    roundtrip_lay(ctx, rng, fmt, bits, which, Some(lay));
+                }
+            }
+        }
+        ctx.rep.count("floats_next_to_19_digit_ties");
+    }
     let mut i = 0u64;
     loop {
         if i % 64 == 0 && ctx.rep.out_of_time() {
@@ -851,7 +872,7 @@ fn mode_roundtrip(ctx: &mut Ctx, args: &Args, rng: &mut Rng, shard: (u64, u64)) 
         let which = rng.below(3);
         roundtrip_one(ctx, rng, F64, bits, which);
     }
-    for k in ["layout.positional", "render.shortest", "render.fixed", "render.exact", "path.fast", "path.moderate_definite", "path.slow_neg", "path.slow_pos"] {
+    for k in ["floats_next_to_19_digit_ties", "layout.positional", "render.shortest", "render.fixed", "render.exact", "path.fast", "path.moderate_definite", "path.slow_neg", "path.slow_pos"] {
         ctx.rep.require(k);
     }
 }
